@@ -340,6 +340,10 @@ def run(ctx):
         if how == "proved":
             r4.samples.append({"obligation": "%s: %s <= %s" % (k, sz, cap), "discharged_by": "difference facts / record invariant"})
 
+    # ---------------------------------------------------------------- R5
+    r5 = ctx.rule("C19.R5", "path parser: an index component that does not fit its type is rejected, not wrapped")
+    check_index_range(P, r5)
+
 
 def ordered_elems(f):
     """elements in a topological-ish order of blocks (clang numbers blocks in
@@ -435,3 +439,60 @@ def check_lookup(f, rule, typed):
         rule.ok("%s returns an entry only after the name%s compared equal" % (f.name, " and type" if typed else ""), "dominance")
     if nret == 0:
         raise Broken("%s: no entry-returning path found" % f.name)
+
+
+def check_index_range(P, rule):
+    """`a[18446744073709551616]` must not be `a[0]`: the number in an index component is either converted by the strto*
+    family with the saturation value (LONG_MAX / ULONG_MAX) or errno == ERANGE tested afterwards, or accumulated digit
+    by digit under a guard that compares the accumulator (or the digit count) with a constant inside the loop."""
+    LIMITS = {0x7fffffffffffffff, 0xffffffffffffffff, 0x7fffffff, 0xffffffff}
+    n = 0
+    for f in P.fns_in("core/attr_path.c"):
+        conv = [c for c in f.calls() if (f.nodes[c].get("callee") or "") in ("strtol", "strtoul", "strtoll", "strtoull")]
+        cyc = set()
+        for comp in C.sccs(f):
+            if len(comp) > 1 or any(b in f.blocks[b].succs for b in comp):
+                cyc |= set(comp)
+        acc = []
+        for b, i, e, lhs, rhs, op in f.stores():
+            if b.id not in cyc or rhs is None:
+                continue
+            ln = f.nodes[f._strip0(lhs)]
+            if ln["k"] != "ref":
+                continue
+            mul = [x for x in f.walk(rhs) if f.nodes[x]["k"] == "bin" and f.nodes[x]["op"] == "*" and C.const_of(f, f.nodes[x]["r"]) == 10
+                   and f.nodes[f._strip0(f.nodes[x]["l"])].get("name") == ln["name"]]
+            if mul or (op == "*=" and C.const_of(f, rhs) == 10):
+                acc.append((ln["name"], e, b.id))
+        if not conv and not acc:
+            continue
+        n += 1
+        rule.instance("%s: %s" % (f.qname, "strto*" if conv else "digit loop"))
+        ok = False
+        conds = list(C.cond_blocks(f))
+        if conv:
+            for b, cond in conds:
+                l, op, r = C.cond_atom(f, cond, True)
+                cv = r[1] if isinstance(r, tuple) else C.const_of(f, r)
+                if cv in LIMITS or (cv == 34 and f.show(l) == "errno"):
+                    ok = True
+        for name, e, bid in acc:
+            for b, cond in conds:
+                if b.id not in cyc:
+                    continue
+                l, op, r = C.cond_atom(f, cond, True)
+                if isinstance(l, tuple):
+                    continue
+                cv = r[1] if isinstance(r, tuple) else C.const_of(f, r)
+                ln = f.nodes[f._strip0(l)]
+                counters = {f.nodes[f._strip0(m["sub"])].get("name") for m in f.nodes.values() if m["k"] == "un" and m["op"] in ("++", "post++")}
+                if cv is not None and ln["k"] == "ref" and ln.get("dk") == "local" and op in ("<", "<=", ">", ">=") and \
+                        (ln.get("name") == name or (ln.get("name") in counters and cv <= 19)):
+                    ok = True        # the accumulator, or the count of digits taken, is bounded inside the loop
+        if ok:
+            rule.ok("%s rejects a number that does not fit" % f.qname, "saturation / ERANGE test, or a bounded accumulation loop")
+        else:
+            rule.violation("%s:index-wraps" % f.name, "%s turns the digits of an index component into a number without any range test: a value beyond the type wraps, so "
+                           "`a[18446744073709551616]` names `a[0]` and an index of 2^63 prints as a negative number that does not parse back" % f.name, loc=f.file)
+    if n < 1:
+        raise Broken("C19.R5: the index parser of attr_path.c was not found")
